@@ -284,3 +284,126 @@ def index_read_lemma(ctx, rep):
     res = driver.explore_parallel(path, 60, nworkers=1)
     _lemma(rep, "lemma index reading: 1-3 requested symbols, 0-3 available (missing = digit 0), each free over 20 symbols", res,
            {"alphabet": ALPHA, "L": "1..3", "available": "0..3"})
+
+
+def derive_step(ctx, rep):
+    """one iteration of _derive_mol_from_symbols from an arbitrary loop-head state, recursion replaced by its contract.
+
+    Loop-head state = (state, prev_atom) with 0 <= state <= capacity(prev) - count(prev) (or no atom yet and state 0),
+    which is also a function entry with init_state = state, root_atom = prev.  The real function is called with
+    max_derive = 1 on one free symbol (+ free index symbols).  The recursive call is replaced by the function's own
+    contract: pre `1 <= b <= free(root)` (asserted), post `root gains 0 <= x <= b bonds, returns n >= 0`.
+    Asserted on return: every atom's count <= capacity; the invariant holds again for (next state, new prev atom);
+    while the chain is still on the root, bonds spent on the root + next state <= init_state, else bonds spent <= init_state
+    (this is the contract, so the stub is justified by the same lemma: induction on iterations and on nesting depth)."""
+    import sys
+    from .symstr import make_tokens
+    mg, dec = ctx.mg, ctx.dec
+    ALPHA = ["[C]", "[=C]", "[#C]", "[N]", "[=N]", "[#N]", "[NH1]", "[=O+1]", "[CH4]",
+             "[Branch1]", "[=Branch1]", "[#Branch1]", "[Branch2]", "[=Branch3]",
+             "[Ring1]", "[=Ring1]", "[#Ring1]", "[Ring2]", "[-/Ring1]", "[epsilon]"]
+    orig = dec._derive_mol_from_symbols
+
+    def path(eng, col):
+        caps = {k: fresh_int("cap_" + k.replace("+", "p").replace("?", "q"), 0, None) for k in ("C", "N", "O+1", "?")}
+        ctx.reset(caps)
+        has_root = bool(engine.fresh_bool("has_root"))
+        mol = mg.MolecularGraph()
+        rings = []
+        if has_root:
+            # two earlier atoms so that ring symbols have somewhere to point; the second is the loop-head atom
+            a0 = mol.add_atom(mg.Atom("N", False), True)
+            root = mol.add_atom(mg.Atom("C", False))
+            cnt = fresh_int("cnt_root", 0, None)
+            st = fresh_int("state", 1, None)
+            eng.assume(cnt.e + st.e <= caps["C"].e)
+            mol._bond_counts[1] = cnt
+            mol._bond_counts[0] = fresh_int("cnt_other", 0, None)
+            eng.assume(zint(mol._bond_counts[0]) <= caps["N"].e)
+        else:
+            root, cnt, st = None, 0, 0
+        toks = make_tokens("t", 4, ALPHA)
+        captured = {}
+        pre_bads = []
+
+        def stub(*args, **kw):
+            import inspect
+            ba = inspect.signature(orig).bind(*args, **kw).arguments
+            mol_, init_state, root_atom = ba["mol"], ba["init_state"], ba["root_atom"]
+            free = root_atom.bonding_capacity - mol_.get_bond_count(root_atom.index)
+            pre_bads.append(z3.Or(zint(init_state) < 1, zint(init_state) > zint(free)))
+            x = fresh_int("br_x%d" % len(pre_bads), 0, None)
+            eng.assume(x.e <= zint(init_state))
+            mol_._bond_counts[root_atom.index] = mol_._bond_counts[root_atom.index] + x
+            return fresh_int("br_n%d" % len(pre_bads), 0, None)
+
+        def tracer(frame, event, arg):
+            if frame.f_code is orig.__code__:
+                def local(fr, ev, a):
+                    if ev == "return":
+                        captured.update(fr.f_locals)
+                    return local
+                return local
+            return None
+
+        dec._derive_mol_from_symbols = stub
+        old = sys.gettrace()
+        sys.settrace(tracer)
+        try:
+            try:
+                orig(enumerate(iter(toks)), mol, "x", 1, st, root, rings, None, 0)
+                err = None
+            except ctx.exc.DecoderError as ex:
+                err = ex
+            except Exception as ex:  # noqa: anything else escaping one iteration is reported with the pre-state
+                err = ex
+                from .symstr import model_value
+                from .ctx import table_model
+                m = eng.current_model()
+                col.candidate({"prop": rep.pid, "kind": "derive_step", "table": table_model(m, caps),
+                               "has_root": has_root, "cnt_root": model_value(m, cnt), "state": model_value(m, st),
+                               "cnt_other": model_value(m, mol._bond_counts[0]) if has_root else 0,
+                               "symbols": [model_value(m, t) for t in toks]})
+        finally:
+            sys.settrace(old)
+            dec._derive_mol_from_symbols = orig
+        if err is not None:
+            col.count("DecoderError")
+            col.nontrivial(("err",))
+            return
+        nxt = captured.get("next_state")
+        state_f = None if nxt is None else captured.get("state")
+        prev = captured.get("prev_atom")
+        bads = list(pre_bads)
+        for a in mol.get_atoms():
+            bads.append(zint(mol.get_bond_count(a.index)) > zint(a.bonding_capacity))
+        if state_f is not None:
+            if prev is None or prev.index is None:
+                bads.append(zint(state_f) != 0)
+            else:
+                free = zint(prev.bonding_capacity) - zint(mol.get_bond_count(prev.index))
+                bads += [zint(state_f) < 0, zint(state_f) > free]
+        if has_root:
+            spent = zint(mol.get_bond_count(1)) - cnt.e
+            if prev is root and state_f is not None:
+                bads.append(spent + zint(state_f) > st.e)
+            else:
+                bads.append(spent > st.e)
+            bads.append(spent < 0)
+        col.count("ok")
+        col.nontrivial((has_root, len(mol.get_atoms()), len(rings), len(pre_bads), state_f is None))
+        col.sample({"has_root": has_root, "atoms_after": len(mol.get_atoms()), "ring_candidates": len(rings),
+                    "recursive_calls": len(pre_bads), "terminated": state_f is None})
+        m = eng.find_model(bads)
+        if m is not None:
+            from .symstr import model_value
+            from .ctx import table_model
+            col.candidate({"prop": rep.pid, "kind": "derive_step", "table": table_model(m, caps),
+                           "has_root": has_root, "cnt_root": model_value(m, cnt), "state": model_value(m, st),
+                           "cnt_other": model_value(m, mol._bond_counts[0]) if has_root else 0,
+                           "symbols": [model_value(m, t) for t in toks]})
+
+    res = driver.explore_parallel(path, 90, nworkers=1)
+    _lemma(rep, "lemma: one iteration of _derive_mol_from_symbols from an arbitrary loop-head state (recursion replaced by its contract)",
+           res, {"capacities, counts, state": "unbounded integers with state <= capacity(prev) - count(prev)",
+                 "symbol": "free over %d symbols, followed by 3 free symbols (indices)" % len(ALPHA), "alphabet": ALPHA})
